@@ -12,14 +12,17 @@ Variable derandomize deinterleave : list Z -> list Z.
 Variable depuncture : geometry -> list Z -> list Z -> list Z.
 Variable viterbi : geometry -> VS -> list Z -> list bool -> (list bool * Z) * VS.
 Variable golay_decode : N -> option N.
+Variable vs_ok : VS -> Prop.
+Hypothesis vs0_ok : vs_ok vs0.
 Hypothesis depuncture_indep : forall g inp prev prev',
   length prev = g_in g -> length prev' = g_in g -> depuncture g inp prev = depuncture g inp prev'.
 Hypothesis depuncture_len : forall g inp prev, length prev = g_in g -> length (depuncture g inp prev) = g_in g.
-Hypothesis viterbi_indep : forall g vs vs' inp prev prev',
+Hypothesis viterbi_indep : forall g vs vs' inp prev prev', vs_ok vs -> vs_ok vs' ->
   length inp = g_in g -> length prev = g_out g -> length prev' = g_out g ->
   fst (viterbi g vs inp prev) = fst (viterbi g vs' inp prev').
-Hypothesis viterbi_len : forall g vs inp prev,
-  length inp = g_in g -> length prev = g_out g -> length (fst (fst (viterbi g vs inp prev))) = g_out g.
+Hypothesis viterbi_len : forall g vs inp prev, vs_ok vs ->
+  length inp = g_in g -> length prev = g_out g ->
+  length (fst (fst (viterbi g vs inp prev))) = g_out g /\ vs_ok (snd (viterbi g vs inp prev)).
 
 Notation dstate := (dstate VS).
 Notation step := (step VS derandomize deinterleave depuncture viterbi golay_decode).
@@ -38,8 +41,8 @@ Definition abs (s : dstate) : sm_state := mksm (d_mode VS s) (d_seg VS s) (d_lsf
 Definition clean : hidden VS := mkhid VS (repeat 0%Z 488) (repeat false 240) (repeat 0%N 26) vs0.
 Definition cleaned (s : dstate) : dstate := mkst VS (d_mode VS s) (d_seg VS s) (d_lsf VS s) clean.
 
-Lemma clean_ok : hid_ok VS clean.
-Proof. unfold hid_ok, clean. cbn [h_dbuf h_obuf h_ubuf]. rewrite !repeat_length. repeat split. Qed.
+Lemma clean_ok : hid_ok VS vs_ok clean.
+Proof. unfold hid_ok, clean. cbn [h_dbuf h_obuf h_ubuf h_vs]. rewrite !repeat_length. repeat split. exact vs0_ok. Qed.
 
 Lemma firstn_repeat {A} (x : A) n m : (n <= m)%nat -> firstn n (repeat x m) = repeat x n.
 Proof. revert m. induction n as [|n IH]; intros m H; [reflexivity|].
@@ -108,12 +111,12 @@ Lemma cleaned_visible s : same_visible VS s (cleaned s).
 Proof. unfold same_visible, cleaned; cbn. repeat split. Qed.
 
 (** one call, any hidden buffer contents *)
-Theorem step_refines_sm s sw fr r : hid_ok VS (d_hid VS s) ->
+Theorem step_refines_sm s sw fr r : hid_ok VS vs_ok (d_hid VS s) ->
   observe VS (step s sw fr r) = sm_observe (sm_step (abs s) sw fr r) /\
   abs (st_of VS (step s sw fr r)) = fst (fst (fst (sm_step (abs s) sw fr r))) /\
-  hid_ok VS (d_hid VS (st_of VS (step s sw fr r))).
+  hid_ok VS vs_ok (d_hid VS (st_of VS (step s sw fr r))).
 Proof. intros H.
-  destruct (step_hidden_indep VS derandomize deinterleave depuncture viterbi golay_decode
+  destruct (step_hidden_indep VS derandomize deinterleave depuncture viterbi golay_decode vs_ok
               depuncture_indep depuncture_len viterbi_indep viterbi_len
               s (cleaned s) sw fr r (cleaned_visible s) H clean_ok) as (O & (M & S & L) & H1 & _).
   destruct (step_clean s sw fr r) as (O2 & A2).
@@ -121,7 +124,7 @@ Proof. intros H.
   rewrite <- A2. unfold abs. rewrite M, S, L. reflexivity. Qed.
 
 (** every history from every state: the observation sequence is the state machine's *)
-Theorem run_refines_sm h : forall s, hid_ok VS (d_hid VS s) ->
+Theorem run_refines_sm h : forall s, hid_ok VS vs_ok (d_hid VS s) ->
   fst (run VS derandomize deinterleave depuncture viterbi golay_decode s h) = sm_run spec_prep spec_dec spec_lich spec_crc_ok (abs s) h.
 Proof. induction h as [|[[sw fr] r] h IH]; intros s H; [reflexivity|].
   cbn [run sm_run]. destruct (step_refines_sm s sw fr r H) as (O & A & H1).
